@@ -49,8 +49,13 @@ pub fn version_str(v: Version) -> &'static str {
 
 pub fn build_request(s: &ReqSpec) -> Request<()> {
     let mut b = Request::builder().method(Method::from_bytes(s.method.as_bytes()).unwrap()).uri(s.uri.as_str()).version(version_of(s.version));
-    for (n, v) in &s.orig {
-        b = b.header(n.as_str(), HeaderValue::from_bytes(v).expect("harness: header value"));
+    for (k, (n, v)) in s.orig.iter().enumerate() {
+        let mut hv = HeaderValue::from_bytes(v).expect("harness: header value");
+        if s.sensitive && k % 2 == 1 {
+            // (the flag says "do not log this value"; it changes neither the bytes nor the header's place in the head)
+            hv.set_sensitive(true);
+        }
+        b = b.header(n.as_str(), hv);
     }
     b.body(()).expect("harness: request")
 }
@@ -516,7 +521,11 @@ pub fn c02(o: &Opts, t: &mut Tracer) -> Value {
         if (body_method && depth == 0) || despite {
             // (taken from another digit than depth / despite, so that every combination occurs, also "despite without framing")
             match (i / 3) % 5 {
-                0 => orig.push(("content-length".into(), rng.gen_range(0..100000u32).to_string().into_bytes())),
+                0 => {
+                    let v = rng.gen_range(0..100000u32);
+                    // (an empty upload declares Content-Length: 0 like any other length)
+                    orig.push(("content-length".into(), (if i % 2 == 0 { 0 } else { v }).to_string().into_bytes()))
+                }
                 1 => orig.push(("transfer-encoding".into(), b"chunked".to_vec())),
                 2 if api == "flow" => added.push(("Content-Length".into(), b"7".to_vec())),
                 3 if api == "flow" => added.push(("Transfer-Encoding".into(), b"Chunked".to_vec())),
@@ -553,7 +562,7 @@ pub fn c02(o: &Opts, t: &mut Tracer) -> Value {
             added.push(("Authorization".into(), b"Bearer set-by-caller".to_vec()));
             t.class("c02:credentials-added-on-redirected");
         }
-        let s = ReqSpec { method: method.into(), version, uri, orig, added, despite, api, hops, policy_same_host, despite_first: i % 4 < 2, sensitive: i % 5 == 3 };
+        let s = ReqSpec { method: method.into(), version, uri, orig, added, despite, api, hops, policy_same_host, despite_first: i % 4 < 2, sensitive: i % 5 == 3 || (i / 5) % 2 == 1 };
         t.sig(format!("c02/{}/{}/{}/{}/{}/{}", method, version, api, depth, norig.min(13), nadded.min(7)));
         exercise(t, &s, &mut rng, if o.quick() { 5 } else { 8 }, true, "c02");
     }
@@ -572,7 +581,7 @@ pub fn c02(o: &Opts, t: &mut Tracer) -> Value {
                     let orig: Vec<(String, Vec<u8>)> = vec![("authorization".into(), b"Basic same-host-secret".to_vec()), ("x-a".into(), b"1".to_vec()),
                                                            ("cookie".into(), b"c=1".to_vec()), ("authorization".into(), b"Bearer second".to_vec())];
                     let added: Vec<(String, Vec<u8>)> = if k % 3 == 0 { vec![("authorization".into(), b"Bearer set-by-caller".to_vec())] } else { vec![] };
-                    let s = ReqSpec { method: ["GET", "HEAD", "OPTIONS"][k % 3].into(), version: "1.1", uri: ouri.into(), orig, added, despite: false, api: "flow", hops, policy_same_host, despite_first: false, sensitive: false };
+                    let s = ReqSpec { method: ["GET", "HEAD", "OPTIONS"][k % 3].into(), version: "1.1", uri: ouri.into(), orig, added, despite: false, api: "flow", hops, policy_same_host, despite_first: false, sensitive: k % 2 == 1 };
                     t.sig(format!("c02/auth/{}/{}/{}/{}", ouri, loc, policy_same_host, via));
                     t.class("c02:original-credentials-across-redirect");
                     exercise(t, &s, &mut rng, 3, true, "c02");
@@ -586,8 +595,9 @@ pub fn c02(o: &Opts, t: &mut Tracer) -> Value {
 pub fn c16(o: &Opts, t: &mut Tracer) -> Value {
     let mut rng = rng_for(o.seed, 0xC16);
     let nflows = if o.quick() { 300 } else { 8000 };
-    let special: [(&str, &[u8]); 22] = [
+    let special: [(&str, &[u8]); 27] = [
         ("cookie", b"jar=1"), ("authorization", b"Bearer target-token"), ("content-length", b"0"), ("host", b"override.test"),
+        ("host", b"override.test:80"), ("host", b"override.test:443"), ("cookie", b""), ("x-empty", b""), ("authorization", b""),
         ("connection", b"close"), ("Cookie", b"second=2"), ("x-1", b"one"), ("accept", b"*/*"),
         ("cookie", b"name=caf\xe9"), ("authorization", b"Basic \xff\xfe\x80"),
         // the very values the original request carried, set again by the caller
@@ -673,11 +683,11 @@ pub fn c16(o: &Opts, t: &mut Tracer) -> Value {
     for version in ["1.0", "1.1"] {
         for method in ["GET", "HEAD", "POST"] {
             for depth in [0usize, 1] {
-                for set in 0..5usize {
+                for set in 0..8usize {
                     k += 1;
                     let body_now = method == "POST" && depth == 0;
                     let despite = !body_now && method != "HEAD" && k % 2 == 0;
-                    let coding = set >= 3;
+                    let coding = set == 3 || set == 4;
                     if coding && (version == "1.0" || !(body_now || despite)) {
                         continue;
                     }
@@ -686,7 +696,11 @@ pub fn c16(o: &Opts, t: &mut Tracer) -> Value {
                         1 => vec![("x-a".into(), b"1".to_vec()), ("Connection".into(), b"Keep-Alive".to_vec()), ("keep-alive".into(), b"timeout=5".to_vec())],
                         2 => vec![("connection".into(), b"close".to_vec()), ("connection".into(), b"keep-alive".to_vec())],
                         3 => vec![("x-a".into(), b"1".to_vec()), ("transfer-encoding".into(), b"gzip".to_vec()), ("x-b".into(), b"2".to_vec())],
-                        _ => vec![("transfer-encoding".into(), b"gzip".to_vec()), ("transfer-encoding".into(), b"chunked".to_vec())],
+                        4 => vec![("transfer-encoding".into(), b"gzip".to_vec()), ("transfer-encoding".into(), b"chunked".to_vec())],
+                        // a Host with the default port spelled out, empty values: emitted as they were given
+                        5 => vec![("host".into(), b"override.test:80".to_vec()), ("x-a".into(), b"1".to_vec())],
+                        6 => vec![("cookie".into(), vec![]), ("x-a".into(), b"1".to_vec()), ("x-empty".into(), vec![]), ("authorization".into(), vec![])],
+                        _ => vec![("x-a".into(), b"1".to_vec()), ("Host".into(), b"h.test:80".to_vec())],
                     };
                     let mut orig: Vec<(String, Vec<u8>)> = vec![("x-keep".into(), b"k".to_vec()), ("cookie".into(), b"orig-cookie=1".to_vec())];
                     if method == "POST" && !coding {
@@ -695,7 +709,7 @@ pub fn c16(o: &Opts, t: &mut Tracer) -> Value {
                     let hops: Vec<(u16, String)> = (0..depth).map(|_| (302u16, "/next".to_string())).collect();
                     let s = ReqSpec { method: method.into(), version, uri: "http://h.test/start/page".into(), orig, added, despite, api: "flow", hops, policy_same_host: k % 2 == 1, despite_first: k % 3 == 0, sensitive: false };
                     t.sig(format!("c16/directed/{}/{}/{}/{}", version, method, depth, set));
-                    t.class(if coding { "c16:added-transfer-coding-other-than-chunked" } else { "c16:added-connection-option" });
+                    t.class(if coding { "c16:added-transfer-coding-other-than-chunked" } else if set >= 5 { "c16:added-host-with-port-or-empty-values" } else { "c16:added-connection-option" });
                     if version == "1.0" {
                         t.class("c16:http10-flow");
                     }
